@@ -9,6 +9,7 @@ CONSTANTS
   FixLock = FALSE
   FixInit = TRUE
   FixIsSet = TRUE
+  DetTime = FALSE
   Locked = TRUE
 PROPERTY WaitTrueQuiet
 CHECK_DEADLOCK FALSE
